@@ -4,8 +4,10 @@
 package c18
 
 import (
+	"bytes"
 	"encoding/json"
 	"fmt"
+	"net/http/httptest"
 	"sort"
 	"strings"
 	"testing"
@@ -26,6 +28,7 @@ type Op struct {
 	C   int    `json:"c,omitempty"`
 	Ch  string `json:"ch,omitempty"`
 	End string `json:"end,omitempty"`
+	Via string `json:"via,omitempty"` // status: "" request on the connection, noslash (channel given without its trailing /), http (POST /presence), nokey / http-nokey (key without the presence permission: refused)
 }
 
 // Case is a history over a few named connections.
@@ -60,6 +63,7 @@ func genCase(t *rapid.T) Case {
 			op.End = rapid.SampledFrom([]string{"close", "disconnect"}).Draw(t, "end")
 		case k < 17:
 			op.K = "status"
+			op.Via = rapid.SampledFrom([]string{"", "", "", "noslash", "http", "http", "nokey", "http-nokey"}).Draw(t, "via")
 		case k < 18:
 			op.K = "watch"
 			op.Ch = rapid.SampledFrom(watchChans).Draw(t, "wch")
@@ -82,12 +86,13 @@ type notif struct {
 }
 
 type env struct {
-	b        *vkit.Broker
-	key      string
-	perm     *vkit.Client // permanent watcher on a/ and x/: proves the presence queue has drained
-	sentinel *vkit.Client
-	sentID   string
-	seq      int
+	b             *vkit.Broker
+	key           string
+	keyNoPresence string       // read / write only
+	perm          *vkit.Client // permanent watcher on a/ and x/: proves the presence queue has drained
+	sentinel      *vkit.Client
+	sentID        string
+	seq           int
 }
 
 var shared *env
@@ -123,7 +128,7 @@ func getEnv() (*env, error) {
 	if err != nil {
 		return nil, err
 	}
-	e := &env{b: b, key: b.Key("#/", security.AllowReadWrite|security.AllowPresence)}
+	e := &env{b: b, key: b.Key("#/", security.AllowReadWrite|security.AllowPresence), keyNoPresence: b.Key("#/", security.AllowReadWrite)}
 	e.perm = b.Attach("permanent-watcher")
 	if err := e.perm.Connect("perm", "perm", nil); err != nil {
 		return nil, err
@@ -372,10 +377,6 @@ func run(c Case) vkit.Result {
 			a.c, a.subs = nil, map[string]bool{}
 			discSeen = true
 		case "status":
-			pubs, err := presence(e.sentinel, e.key, op.Ch, true, nil)
-			if err != nil || len(pubs) != 1 {
-				return fail("step %d: status request: %v (%d replies)", step, err, len(pubs))
-			}
 			var st struct {
 				Status  int    `json:"status"`
 				Event   string `json:"event"`
@@ -385,8 +386,49 @@ func run(c Case) vkit.Result {
 					Username string `json:"username"`
 				} `json:"who"`
 			}
-			if err := json.Unmarshal(pubs[0].Payload, &st); err != nil || st.Status != 200 || st.Event != "status" || st.Channel != op.Ch {
-				return fail("step %d: status response %q", step, pubs[0].Payload)
+			askKey, askCh := e.key, op.Ch
+			if strings.HasSuffix(op.Via, "nokey") {
+				askKey = e.keyNoPresence
+			}
+			if op.Via == "noslash" {
+				askCh = strings.TrimSuffix(op.Ch, "/")
+			}
+			if strings.HasPrefix(op.Via, "http") {
+				body, _ := json.Marshal(map[string]interface{}{"key": askKey, "channel": askCh})
+				rec := httptest.NewRecorder()
+				e.b.S.VerifHTTPHandler().ServeHTTP(rec, httptest.NewRequest("POST", "/presence", bytes.NewReader(body)))
+				if op.Via == "http-nokey" {
+					if rec.Code != 401 {
+						return fail("step %d: POST /presence with a key that lacks the presence permission answered %d, expected 401", step, rec.Code)
+					}
+					labels["status-refused"] = true
+					break
+				}
+				if rec.Code != 200 {
+					return fail("step %d: POST /presence for %s with a key that has the presence permission answered HTTP %d (%s)", step, op.Ch, rec.Code, strings.TrimSpace(rec.Body.String()))
+				}
+				if err := json.Unmarshal(rec.Body.Bytes(), &st); err != nil || st.Event != "status" || st.Channel != op.Ch {
+					return fail("step %d: POST /presence response %q", step, rec.Body.String())
+				}
+				labels["status-over-http"] = true
+			} else {
+				pubs, err := presence(e.sentinel, askKey, askCh, true, nil)
+				if err != nil || len(pubs) != 1 {
+					return fail("step %d: status request: %v (%d replies)", step, err, len(pubs))
+				}
+				if op.Via == "nokey" {
+					var er struct {
+						Status int `json:"status"`
+					}
+					if json.Unmarshal(pubs[0].Payload, &er) != nil || er.Status != 401 {
+						return fail("step %d: status request with a key that lacks the presence permission answered %q, expected status 401", step, pubs[0].Payload)
+					}
+					labels["status-refused"] = true
+					break
+				}
+				if err := json.Unmarshal(pubs[0].Payload, &st); err != nil || st.Status != 200 || st.Event != "status" || st.Channel != op.Ch {
+					return fail("step %d: status response %q", step, pubs[0].Payload)
+				}
 			}
 			var got, want []string
 			for _, x := range st.Who {
